@@ -32,7 +32,7 @@ def run(tier, seed):
     if r.violated:
         # only the liveness property can be violated here: the lookup machine must terminate
         v.violation("lookup machine does not terminate / TLC property violated: %s" % r.violated, {})
-    expect = len(tabs) + 690 + 6 * len(dic)
+    expect = len(tabs) + 690 + 6 * len(dic) + 3 * len(dic)
     recs = {}
     for x in r.records:
         recs[repr(sorted(x["req"].items()))] = x
@@ -54,6 +54,10 @@ def run(tier, seed):
         if req["kind"] == "number":
             desc = "sgno=%d cell_choice=%s" % (req["no"], req["setting"])
             kw = dict(sgno=req["no"], cell_choice=req["setting"])
+        elif req["kind"] == "nameset":
+            text = _s(x["spelled"])
+            desc = "sgname=%r cell_choice=%s" % (text, req["setting"])
+            kw = dict(sgname=text, cell_choice=req["setting"])
         else:
             text = _s(x["spelled"])
             desc = "sgname=%r" % text
@@ -62,7 +66,7 @@ def run(tier, seed):
         if x["pc"] != "resolved":
             v.violation("model: lookup %s ends in %s" % (desc, x["pc"]), {"lookup": desc, "rec": x})
             continue
-        for flag, what in (("nameagrees", "table's own name does not match the key"),
+        for flag, what in () if req["kind"] == "nameset" else (("nameagrees", "table's own name does not match the key"),
                            ("keysresolve", "key resolves to another class than the dictionary names"),
                            ("suffixrule", "rhombohedral table not reached exactly by r...r keys"),
                            ("numbersresolve", "number resolves to a table with another number")):
@@ -123,6 +127,19 @@ def run(tier, seed):
                                 "table (results share storage)" % desc, {"lookup": desc})
             except Exception as ex:
                 v.violation("lookup %s: repeating the lookup after modifying the first result raised %r" % (desc, ex), {"lookup": desc})
+    # the same name with different explicit settings, in the opposite order (what one spelling was resolved to before must not
+    # decide what it is resolved to now)
+    for x in reversed([q for q in recs.values() if q["req"]["kind"] == "nameset" and q["pc"] == "resolved"]):
+        text = _s(x["spelled"])
+        t = bykey[(x["no"], x["setting"])]
+        try:
+            g = sg.sg(sgname=text, cell_choice=x["req"]["setting"])
+            replayed += 1
+            if int(g.no) != t["own_no"] or str(g.name) != t["name_text"] or int(g.nsymop) != t["nsymop"] or not np.array_equal(np.array(g.rot), np.array(t["rot"])):
+                v.violation("real lookup sgname=%r cell_choice=%s (asked after the other settings of the same name) differs from the table the "
+                            "lookup machine resolves (Sg%d/%s)" % (text, x["req"]["setting"], x["no"], x["setting"]), {"lookup": text, "setting": x["req"]["setting"]})
+        except Exception as ex:
+            v.violation("real lookup sgname=%r cell_choice=%s raised %r" % (text, x["req"]["setting"], ex), {"lookup": text})
     cov = {"states": r.distinct, "transitions": r.generated, "traces_validated_against_impl": replayed,
            "exhaustive": True, "tables": len(tabs), "operations": sum(t["nsymop"] for t in tabs),
            "dictionary_keys": len(dic), "tlc_wall_s": round(r.wall, 1),
